@@ -225,6 +225,37 @@ func genC08(tier string, seed uint64, emit0 func(string)) {
 		emit(sysLine(1, &pw, "r b:76", append([]sysStep{mkStep(0, nil, []byte("AUTH"), []byte(pw)), mkStep(0, nil, []byte("AUTH"), []byte("nope"))}, probe(0)...)))
 		emit(sysLine(1, &pw, "r b:76", append([]sysStep{mkStep(0, nil, []byte("AUTH"), []byte("nope")), mkStep(0, nil, []byte("AUTH"), []byte(pw))}, probe(0)...)))
 	}
+	// what a client may send before it has authenticated - unknown commands (HELLO 3, CLIENT SETINFO, COMMAND: what client
+	// libraries send on connect), requests answered with an error (missing argument, not a number, a non-array value, an
+	// empty array), composed commands (refused at the gate before they reach their inner command), QUIT-less garbage -
+	// followed by a refused AUTH, leaves the gate where it was: the probes behind it are refused
+	{
+		pw := "secret"
+		st := func(args ...string) sysStep {
+			bs := make([][]byte, len(args))
+			for i, a := range args {
+				bs[i] = []byte(a)
+			}
+			return mkStep(0, nil, bs...)
+		}
+		rawStep := func(raw string) sysStep {
+			s := mkStep(0, nil, []byte("PING"))
+			s.raw = []byte(raw)
+			return s
+		}
+		firsts := [][]sysStep{{st("HELLO", "3")}, {st("CLIENT", "SETINFO", "lib-name", "x")}, {st("COMMAND")}, {st("FOO")}, {st("FOO"), st("BAR", "x"), st("HELLO", "2")},
+			{st("GET")}, {st("INCRBY", "n", "abc")}, {st("STRLEN", "k")}, {st("HLEN", "h")}, {st("HEXISTS", "h", "f")}, {st("SUBSTR", "k", "0", "1")}, {st("STRLEN")},
+			{st("SELECT", "1")}, {st("SELECT", "x")}, {st("CONFIG", "GET", "requirepass")}, {st("CONFIG", "SET", "requirepass", "")}, {st("ECHO", "hi")},
+			{rawStep("+PING\r\n")}, {rawStep("*0\r\n")}, {rawStep("*1\r\n$-1\r\n")}, {rawStep(":1\r\n")}, {st("AUTH")}, {st("AUTH", "a", "b", "c")}}
+		for _, first := range firsts {
+			for _, refused := range [][]sysStep{nil, {st("AUTH", "nope")}, {st("AUTH", "", "nope")}} {
+				sched := append(append(append([]sysStep{}, first...), refused...), probe(0)...)
+				emit(sysLine(1, &pw, "r b:76", sched))
+				// ... and the exact password behind all that still opens it
+				emit(sysLine(1, &pw, "r b:76", append(append(append(append([]sysStep{}, first...), refused...), st("AUTH", pw)), probe(0)...)))
+			}
+		}
+	}
 	// all interleavings of 2..3 connections, total length <= 6 (quick) / 7 (thorough)
 	pw := "secret"
 	menu := func(id int) [][]sysStep {
